@@ -924,14 +924,15 @@ type BinaryOpNode struct {
 func (n *BinaryOpNode) String() string {
 	var prec = binaryPrecedence[n.Name]
 	// binary operators associate to the left, except ?: which groups to the
-	// right (its operands are parenthesized on both sides).
-	return operandString(n.Arg1, prec, n.Name == "?:") + " " + n.Name + " " + operandString(n.Arg2, prec, true)
+	// right (there it is the left operand that needs the parentheses).
+	var rightAssoc = n.Name == "?:"
+	return operandString(n.Arg1, prec, rightAssoc) + " " + n.Name + " " + operandString(n.Arg2, prec, !rightAssoc)
 }
 
 // Operator precedence, used to print the parentheses an expression needs to
 // parse back to the same tree.
 const (
-	precTernary = -1
+	precTernary = 0 // (the level of ?:)
 	precUnary   = 7
 	precValue   = 8
 )
@@ -1023,15 +1024,10 @@ type TernNode struct {
 func (n *TernNode) String() string {
 	// (the spaces keep "$a ? [1] : 2" from reading back as the null-safe "$a?[1]")
 	// (each operand is printed once: printing one twice doubles the work at every level of nesting)
-	var elseStr string
-	if _, ok := n.Arg3.(*TernNode); ok {
-		elseStr = n.Arg3.String()
-	} else {
-		elseStr = operandString(n.Arg3, 0, false)
-	}
 	// (a condition that is itself a ?: or a conditional needs parentheses: the
-	// three operators share one level and group to the right)
-	return operandString(n.Arg1, 0, true) + " ? " + operandString(n.Arg2, 0, false) + " : " + elseStr
+	// three operators share one level and group to the right; the other two
+	// operands are whole expressions and need none)
+	return operandString(n.Arg1, precTernary, true) + " ? " + n.Arg2.String() + " : " + n.Arg3.String()
 }
 
 func (n *TernNode) Children() []Node {
